@@ -243,6 +243,9 @@ func numAfter(s StrV, prefix string) (*Term, bool) {
 }
 
 func (vm *VM) chooseLogged(n int) int {
+	if n <= 1 {
+		return 0
+	}
 	if vm.cfg.Concrete != nil {
 		return int(vm.nextConcrete("choice").Int)
 	}
@@ -621,6 +624,17 @@ func addMisc(m map[string]Intrinsic) {
 	m["internal/abi.NoEscape"] = func(vm *VM, fn *ssa.Function, args []Value) Value { return args[0] }
 	m["internal/abi.Escape"] = func(vm *VM, fn *ssa.Function, args []Value) Value { return args[0] }
 	m["runtime.KeepAlive"] = nop
+	m["maps.clone"] = func(vm *VM, fn *ssa.Function, args []Value) Value {
+		iv := args[0].(IfaceV)
+		src := iv.V.(MapV)
+		if src.Obj == nil {
+			return iv
+		}
+		vm.noteAccess(PtrV{Obj: src.Obj}, false)
+		nm := vm.newMap()
+		nm.Obj.Val = &MapData{E: append([]MapEntry(nil), src.Obj.Val.(*MapData).E...)}
+		return IfaceV{Dyn: iv.Dyn, V: nm}
+	}
 	m["internal/race.Enabled"] = nop
 	m["internal/bytealg.MakeNoZero"] = func(vm *VM, fn *ssa.Function, args []Value) Value {
 		n := constInt(vm, args[0], "MakeNoZero")
